@@ -33,7 +33,7 @@ ASSUMPTIONS = [
     "admissible = the structure the call would produce contains every node object at most once, has no cycle, and every node to be (re-)attached has a free id",
     "operations that raise (documented or not) end the history without verdict and are counted; rejected operations are C19's subject",
 ]
-MUST_SEE = ["replace_depth_ge2", "remove_middle_of_sequence", "op_on_stale", "twins", "ops_ok", "replace_with_node", "replace_with_none", "transform_visitor", "transformer_execute", "attach_detached_subtree", "duplicate", "checks_deep", "twin_sequences", "replacement_is_detached_clone_of_attached_node"]
+MUST_SEE = ["explicit_ids", "replace_by_equal_value_of_other_type", "replace_depth_ge2", "remove_middle_of_sequence", "op_on_stale", "twins", "ops_ok", "replace_with_node", "replace_with_none", "transform_visitor", "transformer_execute", "attach_detached_subtree", "duplicate", "checks_deep", "twin_sequences", "replacement_is_detached_clone_of_attached_node"]
 CONFIG = {
     "quick": {"shards": 16, "histories": 100, "ops": 30, "watchdog_s": 600},
     "thorough": {"shards": 32, "histories": 400, "ops": 50, "watchdog_s": 3400},
@@ -171,6 +171,14 @@ class Runner:
         if any(c.detached for v in kw.values() for c in (v if isinstance(v, (list, tuple)) else [v]) if c is not None):
             self.ctx.count("attach_detached_subtree")
         self.log.append(("construct", cls, {k: [desc(c) for c in (v if isinstance(v, (list, tuple)) else [v]) if c is not None] for k, v in kw.items()}))
+        if rng.random() < 0.12:
+            # an id chosen by the caller (any string, the empty one included) instead of the computed one
+            from pyoak.legacy.node import AwareASTNode
+
+            eid = rng.choice(["", "0", " ", "node-1", "None", "x" * 70])
+            if AwareASTNode.get_any(eid) is None and not any(h.id == eid for h in self.F.handles):
+                kw["id"] = eid
+                self.ctx.count("explicit_ids")
         n = U.cls[cls](origin=O.build_origin(("no",)), **kw)
         self.F.add(n)
         return "construct"
@@ -254,6 +262,13 @@ class Runner:
             f = rng.choice(pf)
             self.counter += 1
             changes[f.name] = self.counter if f.shape == "int" else rng.choice(["x", "y", None]) if f.shape == "ostr" else f"s{self.counter}"
+            if f.shape == "int" and rng.random() < 0.3:
+                # a value that is == to the present one but of another type (0 / False / 0.0, 1 / True / 1.0): other content
+                cur_v = getattr(n, f.name)
+                alts = [x for x in (0, False, 0.0, 1, True, 1.0) if x == cur_v and type(x) is not type(cur_v)]
+                if alts:
+                    changes[f.name] = rng.choice(alts)
+                    self.ctx.count("replace_by_equal_value_of_other_type")
         elif kind == "child":
             f = rng.choice(cfs)
             types = tuple(U.cls[t] for t in f.types)
